@@ -233,7 +233,8 @@ AsMDP(i) ==
       R |-> [k \in 1..n |-> [a \in 1..5 |-> [t \in 1..n |-> ORew(i, st[k], Acts[a], st[t])]]],
       p0 |-> [k \in 1..n |-> IF k = 1 THEN 1 ELSE 0]]
 ValueAgreesWithMDPOracle ==
-  (Walking /\ Valued(g) /\ pos = <<0, 0>> /\ g.W * g.H <= 3) =>
+  \* (denominators up to 5 keep the library's determinants inside 32-bit integers)
+  (Walking /\ Valued(g) /\ pos = <<0, 0>> /\ g.W * g.H <= 3 /\ g.SPD <= 5) =>
      LET m == TLCEval(AsMDP(g))
          V == OptimalValue(m)
          U == GridValue(g)
